@@ -86,6 +86,11 @@ def sum_over_source(t, base_pred=None):
     return None
 
 
+def is_source_sum(t):
+    """np.sum(X, axis=source_axis, keepdims=True) or X.sum(source_axis, keepdims=True)"""
+    return sum_over_source(t) is not None
+
+
 def eps_sum(den):
     """den == sum_over_source(X) + eps  ->  X"""
     den = strip_views(den)
@@ -138,16 +143,14 @@ def check_forms(run, A):
             d = eps_sum(x.args[2])
             if d is not None and is_call_to(strip_views(d), 'numpy.abs'):
                 inner = call_arg(strip_views(d), 0)
-                n_, pos, kw = call_parts(inner)
-                okax = n_ == 'numpy.sum' and strip_views(kw.get('axis', pos[1] if len(pos) > 1 else None)).op == 'param' and const_val(kw.get('keepdims')) is True
-                ok = okax and is_call_to(strip_views(x.args[1]), 'numpy.abs')
+                ok = is_source_sum(inner) and is_call_to(strip_views(x.args[1]), 'numpy.abs')
     run.check(ok, 'FORM', 'ideal_amplitude_mask: |s| / (|sum over source_axis of s| + eps)', fn.loc(), '', 'form not recognised', construct=f'FORM::{q}::form')
     # phase sensitive mask
     q = M + 'phase_sensitive_mask'
     fn = A.prog.func(q)
     g = A.graphs.get(fn)
-    obs = [e.term for e in g.events if e.kind == 'call' and is_call_to(e.term, 'numpy.sum')]
-    ok_obs = bool(obs) and strip_views(call_arg(obs[0], 1, 'axis')).op == 'param' and strip_views(call_arg(obs[0], 1, 'axis')).args[0] == 'source_axis' and const_val(call_arg(obs[0], None, 'keepdims')) is True
+    obs = [e.term for e in g.events if e.kind == 'call' and call_parts(e.term)[0] in ('numpy.sum', 'method:sum')]
+    ok_obs = bool(obs) and is_source_sum(obs[0])
     divs = [e for e in g.events if e.kind == 'inplace' and e.term.op == 'iop' and e.term.args[0] == 'Div']
     muls = [e for e in g.events if e.kind == 'inplace' and e.term.op == 'iop' and e.term.args[0] == 'Mult']
     ok_div = False
@@ -168,8 +171,8 @@ def check_forms(run, A):
     fn = A.prog.func(q)
     g = A.graphs.get(fn)
     r = [strip_views(x) for x in ret_alts(g)]
-    ok = len(r) == 1 and r[0].op == 'binop' and r[0].args[0] == 'Div' and data_derives(r[0].args[1], 'signal') and is_call_to(strip_views(r[0].args[2]), 'numpy.sum') \
-        and strip_views(call_arg(strip_views(r[0].args[2]), 1, 'axis')).op == 'param' and const_val(call_arg(strip_views(r[0].args[2]), None, 'keepdims')) is True
+    ok = len(r) == 1 and r[0].op == 'binop' and r[0].args[0] == 'Div' and data_derives(r[0].args[1], 'signal') and is_source_sum(r[0].args[2]) \
+        and data_derives(sum_over_source(r[0].args[2]), 'signal')
     run.check(ok, 'FORM', 'ideal_complex_mask: s / sum over source_axis of s', fn.loc(), '', 'form not recognised', construct=f'FORM::{q}::form')
     # eps defaults are positive
     for name in ('wiener_like_mask', 'ideal_ratio_mask', 'ideal_amplitude_mask', 'phase_sensitive_mask'):
